@@ -3,7 +3,7 @@
 //# mount: crypto/src/merkle/mod.rs
 //# modpath: merkle
 //# assets: mocks models
-//# props: C19 C18 C05
+//# props: C19
 //# subst: crypto/src/merkle/mod.rs | collections::{BTreeMap, BTreeSet}, | <empty>
 //# attach: crypto/src/merkle/mod.rs | ^mod proofs; | #[cfg(kani)] use utils::verif_models::{BTreeMap, BTreeSet}; #[cfg(not(kani))] use alloc::collections::{BTreeMap, BTreeSet};
 //# subst: crypto/src/merkle/proofs.rs | use alloc::{collections::BTreeMap, vec::Vec}; | use alloc::vec::Vec; #[cfg(kani)] use utils::verif_models::BTreeMap; #[cfg(not(kani))] use alloc::collections::BTreeMap;
@@ -195,27 +195,34 @@ fn malformed_batch(shape: &[usize], n_idx: usize, n_leaves: usize) {
     let _ = proof.into_openings(&leaves, &idx);
 }
 
-//# harness: fn=BatchMerkleProof::get_root, MerkleTree::verify_batch, BatchMerkleProof::into_openings; label=bounded(shapes: 0-2 node vectors of length 0-2, 1-2 indexes, 0-2 leaves, depth 0..=3; contents symbolic); tier=quick; uses=malformed_batch,nodes_of,digests,indexes_of; timeout=600
+//# harness: fn=BatchMerkleProof::get_root, MerkleTree::verify_batch, BatchMerkleProof::into_openings; label=bounded(shapes (nodes [], 1 index, 1 leaf) and (nodes [0], 1 index, 1 leaf); depth 0..=3; contents symbolic); tier=quick; uses=malformed_batch,nodes_of,digests,indexes_of; timeout=900
 #[cfg_attr(kani, kani::proof)]
 #[cfg_attr(kani, kani::unwind(12))]
 #[cfg_attr(kani, kani::stub(alloc::fmt::format, vs::fake_format))]
 pub fn k_c19_batch_malformed_a() {
     malformed_batch(&[], 1, 1);
     malformed_batch(&[0], 1, 1);
-    malformed_batch(&[1], 1, 0);
-    malformed_batch(&[1], 1, 1);
     vreach!("C19.malformed_a.reach");
 }
 
-//# harness: fn=BatchMerkleProof::get_root, MerkleTree::verify_batch, BatchMerkleProof::into_openings; label=bounded(shapes with 2 indexes); tier=quick; uses=malformed_batch,nodes_of,digests,indexes_of; timeout=600
+//# harness: fn=BatchMerkleProof::get_root, MerkleTree::verify_batch, BatchMerkleProof::into_openings; label=bounded(shapes (nodes [1], 1 index, 0 leaves) and (nodes [1], 1 index, 1 leaf); depth 0..=3; contents symbolic); tier=quick; uses=malformed_batch,nodes_of,digests,indexes_of; timeout=900
 #[cfg_attr(kani, kani::proof)]
 #[cfg_attr(kani, kani::unwind(12))]
 #[cfg_attr(kani, kani::stub(alloc::fmt::format, vs::fake_format))]
 pub fn k_c19_batch_malformed_b() {
-    malformed_batch(&[2], 2, 2);
-    malformed_batch(&[1, 1], 2, 2);
-    malformed_batch(&[0, 2], 2, 1);
+    malformed_batch(&[1], 1, 0);
+    malformed_batch(&[1], 1, 1);
     vreach!("C19.malformed_b.reach");
+}
+
+//# harness: fn=BatchMerkleProof::get_root, MerkleTree::verify_batch, BatchMerkleProof::into_openings; label=bounded(shapes with 2 indexes: (nodes [2], 2 leaves), (nodes [0, 2], 1 leaf); depth 0..=3; contents symbolic); tier=thorough; uses=malformed_batch,nodes_of,digests,indexes_of; timeout=2400
+#[cfg_attr(kani, kani::proof)]
+#[cfg_attr(kani, kani::unwind(12))]
+#[cfg_attr(kani, kani::stub(alloc::fmt::format, vs::fake_format))]
+pub fn k_c19_batch_malformed_c() {
+    malformed_batch(&[2], 2, 2);
+    malformed_batch(&[0, 2], 2, 1);
+    vreach!("C19.malformed_c.reach");
 }
 
 // ------------------------------------------------------------------------------------------------
@@ -227,7 +234,7 @@ fn tree_of(n: usize) -> (Vec<D>, MerkleTree<HM>) {
     (leaves, tree)
 }
 
-//# harness: fn=MerkleTree::new, build_merkle_nodes, prove, verify; label=bounded(2 and 4 leaves; every index, every digest); tier=quick; uses=tree_of,digests; timeout=400
+//# harness: fn=MerkleTree::new, build_merkle_nodes, prove, verify; label=bounded(2 and 4 leaves; every index, every digest); tier=quick; props=C18; uses=tree_of,digests; timeout=600
 #[cfg_attr(kani, kani::proof)]
 #[cfg_attr(kani, kani::unwind(12))]
 #[cfg_attr(kani, kani::stub(alloc::fmt::format, vs::fake_format))]
@@ -246,8 +253,9 @@ pub fn k_c18_tree_and_single_openings() {
     vreach!("C18.single.reach");
 }
 
-/// batch consistency on a 4-leaf tree for one concrete index sequence
-fn batch_consistent(idx: &[usize]) {
+/// batch opening on a 4-leaf tree for one concrete index sequence: leaves come back in input order,
+/// the proof verifies and reconstructs the root
+fn batch_verifies(idx: &[usize]) {
     let (l, t) = tree_of(4);
     let (bl, bp) = t.prove_batch(idx).unwrap();
     let mut k = 0;
@@ -257,16 +265,20 @@ fn batch_consistent(idx: &[usize]) {
     }
     vcheck!("C18.batch.verifies", MerkleTree::<HM>::verify_batch(t.root(), idx, &bl, &bp).is_ok());
     vcheck!("C18.batch.reconstructs_root", bp.get_root(idx, &bl) == Ok(*t.root()));
-    // batch proof assembled from single openings equals the direct one
+}
+
+/// batch proof assembled from single openings equals the direct one and expands back into them
+fn batch_matches_singles(idx: &[usize]) {
+    let (_l, t) = tree_of(4);
+    let (bl, bp) = t.prove_batch(idx).unwrap();
     let mut singles = Vec::new();
-    k = 0;
+    let mut k = 0;
     while k < idx.len() {
         singles.push(t.prove(idx[k]).unwrap());
         k += 1;
     }
     let assembled = BatchMerkleProof::<HM>::from_single_proofs(&singles, idx);
     vcheck!("C18.batch.from_single_proofs_equal", assembled.depth == bp.depth && assembled.nodes == bp.nodes);
-    // and expands back into exactly the single openings
     let openings = bp.into_openings(&bl, idx).unwrap();
     k = 0;
     while k < idx.len() {
@@ -275,23 +287,34 @@ fn batch_consistent(idx: &[usize]) {
     }
 }
 
-//# harness: fn=MerkleTree::prove_batch, verify_batch, BatchMerkleProof::get_root, from_single_proofs, into_openings; label=bounded(4 leaves; index sequences [1], [2,3], [3,0]; digests symbolic); tier=quick; uses=batch_consistent,tree_of,digests; timeout=900
+//# harness: fn=MerkleTree::prove_batch, verify_batch, BatchMerkleProof::get_root; label=bounded(4 leaves; index sequences [1], [2,3], [3,0]; digests symbolic); tier=quick; props=C18; uses=batch_verifies,tree_of,digests; timeout=900
 #[cfg_attr(kani, kani::proof)]
 #[cfg_attr(kani, kani::unwind(12))]
 #[cfg_attr(kani, kani::stub(alloc::fmt::format, vs::fake_format))]
-pub fn k_c18_batch_openings_a() {
-    batch_consistent(&[1]);
-    batch_consistent(&[2, 3]);
-    batch_consistent(&[3, 0]);
-    vreach!("C18.batch_a.reach");
+pub fn k_c18_batch_openings_verify() {
+    batch_verifies(&[1]);
+    batch_verifies(&[2, 3]);
+    batch_verifies(&[3, 0]);
+    vreach!("C18.batch_verify.reach");
 }
 
-//# harness: fn=MerkleTree::prove_batch, verify_batch, BatchMerkleProof::get_root, from_single_proofs, into_openings; label=bounded(4 leaves; index sequences [0,1,2,3], [2,0,1]; digests symbolic); tier=thorough; uses=batch_consistent,tree_of,digests; timeout=1800
+//# harness: fn=BatchMerkleProof::from_single_proofs, into_openings; label=bounded(4 leaves; index sequence [3,0]; digests symbolic); tier=quick; props=C18; uses=batch_matches_singles,tree_of,digests; timeout=900
 #[cfg_attr(kani, kani::proof)]
 #[cfg_attr(kani, kani::unwind(12))]
 #[cfg_attr(kani, kani::stub(alloc::fmt::format, vs::fake_format))]
-pub fn k_c18_batch_openings_b() {
-    batch_consistent(&[0, 1, 2, 3]);
-    batch_consistent(&[2, 0, 1]);
-    vreach!("C18.batch_b.reach");
+pub fn k_c18_batch_vs_single_openings() {
+    batch_matches_singles(&[3, 0]);
+    vreach!("C18.batch_singles.reach");
+}
+
+//# harness: fn=MerkleTree::prove_batch, verify_batch, get_root, from_single_proofs, into_openings; label=bounded(4 leaves; index sequences [0,1,2,3], [2,0,1], [2,3]; digests symbolic); tier=thorough; props=C18; uses=batch_verifies,batch_matches_singles,tree_of,digests; timeout=3000
+#[cfg_attr(kani, kani::proof)]
+#[cfg_attr(kani, kani::unwind(12))]
+#[cfg_attr(kani, kani::stub(alloc::fmt::format, vs::fake_format))]
+pub fn k_c18_batch_openings_more() {
+    batch_verifies(&[0, 1, 2, 3]);
+    batch_verifies(&[2, 0, 1]);
+    batch_matches_singles(&[2, 3]);
+    batch_matches_singles(&[2, 0, 1]);
+    vreach!("C18.batch_more.reach");
 }
